@@ -41,18 +41,25 @@ func main() {
 		"(2) token order: all pairs of strings of length <= %d (ordered partitioner: unsigned byte order; murmur3/random on a subset: signed / big.Int order). "+
 		"(3) token strings at range boundaries: ParseString round trip and Less on all pairs, and against hashed tokens. "+
 		"(4) partition keys of 1..3 components over 20 (CQL type, value) atoms, identity and permuted bind-marker positions, through "+
-		"createRoutingKey, Query.GetRoutingKey and Batch.GetRoutingKey (routing-key info seeded in the session cache), and the Murmur3 token of the result.",
-		sp.shortMax, sp.substMax, orderedPairMax(r.Thorough())))
+		"createRoutingKey, Query.GetRoutingKey and Batch.GetRoutingKey (routing-key info seeded in the session cache), and the Murmur3 token of the result. "+
+		"(4b) SEQUENCES on one object: for every statement shape (quick: every single key-column type, every pair of types, 7 triples; thorough: every list of 1..3 of the 7 types; "+
+		"both bind layouts; three value sets K0..K2 each) every sequence of up to %s operations on ONE Query from {GetRoutingKey, Bind(K0|K1|K2), RoutingKey(E0|E1|nil), "+
+		"WithContext copy, Release + Session.Query again} and on ONE Batch from {GetRoutingKey, Query(K0|K1|K2) appended, Entries[0] replaced by K0|K1|K2, Entries truncated}, followed by a final GetRoutingKey: "+
+		"every key handed out must be the reference key of the values bound AT THAT MOMENT (or the explicit key in force), and must not change afterwards; "+
+		"a sequence is non-trivial when the object is changed after it has handed out a key.",
+		sp.shortMax, sp.substMax, orderedPairMax(r.Thorough()), seqLenText(r.Thorough())))
 	r.Assume("Cassandra's algorithms are as ported in /verif/engine/refcass (unit-tested against canonical MurmurHash3 vectors, third-party Cassandra vectors incl. one with sign extension, python-computed MD5 tokens)",
 		"empty partition keys are outside the property (Cassandra rejects them; its partitioners short-cut them to the MINIMUM token): for the empty string only the raw hash is compared",
 		"the single Murmur3 hash value Long.MIN_VALUE that Cassandra remaps to Long.MAX_VALUE is not reachable by enumeration",
 		"Query.GetRoutingKey is driven with routing-key info seeded into Session.routingKeyInfoCache (no scripted node here): the prepare/metadata derivation of that info is not covered by this check",
-		"encodings of the component values (int, bigint, text, blob, uuid, timestamp, boolean) are written by hand from the CQL spec")
+		"encodings of the component values (int, bigint, text, blob, uuid, timestamp, boolean) are written by hand from the CQL spec",
+		"sequences (4b): Query.RoutingKey(nil) means 'no explicit key' (GetRoutingKey's documentation: 'if a routing key has not been explicitly set'); an explicit non-nil key stays in force across Bind and WithContext and is what GetRoutingKey returns (documented contract of Query.RoutingKey); a batch without entries has no routing key")
 
 	suiteHash(sp)
 	suiteOrder()
 	suiteTokenStrings()
 	suiteRoutingKeys()
+	suiteRoutingSequences()
 	suiteAppengineChild()
 
 	os.Exit(r.Finish(true))
